@@ -300,6 +300,10 @@ def likelihood_json(case):
     cj = clock_json(case)
     if cj is not None:
         like_["branch_model"] = cj
+    if case.get("aln_taxa_order"):
+        # the alignment refers to a Taxa object of its own: the same taxa (by reference), listed in another order than the tree's
+        aln["taxa"] = "taxa.aln"
+        return [taxa_json(case), {"id": "taxa.aln", "type": "Taxa", "taxa": list(case["aln_taxa_order"])}, like_]
     return [taxa_json(case), like_]
 
 
